@@ -11,7 +11,7 @@ EXPLANATION = (
     "D4 line fields are split on bytes (no u8-as-char Unicode predicate); "
     "D5 Line::from_bytes: unknown algorithm / unparsable size / malformed name -> Line::None; Distinfo::from_bytes: Line::None has no effect, Size->update_size, Checksum->update_checksum with the line's own fields; "
     "D4-BLANKSET every blank test in Line::from_bytes (leading blanks, field separator), in whatever spelling, accepts space and tab and nothing outside ASCII white space (table over 256 byte values); "
-    "D5-WHOLE-LINE the text split into fields is the whole line with only leading blanks skipped; "
+    "D5-WHOLE-LINE the text split into fields is the whole line with only leading blanks skipped; D5-LINE-TESTS a line as a whole is classified only by starts_with(b\"#\"), starts_with(b\"$NetBSD\") or is_empty(); "
     "D5-LINES the lines handed to Line::from_bytes are the pieces of a byte-level split of the input at '\\n' (no UTF-8 line reader, no adapter in between) and the loop ends only by exhaustion; the get-or-insert spelling map.entry(name).or_insert_with(|| Entry{filename: name, filetype, ..default}) followed by the one unconditional update is recognised as the same pair of arms")
 NOT_DECIDED = [
     "field splitting semantics for arbitrary interleavings (slice::split is std's)",
@@ -320,6 +320,53 @@ def run(ctx):
             ctx.check(is_line, "D5-WHOLE-LINE", LFB, "fields-from-whole-line", "fields = whole line minus leading blanks (%s)" % (",".join(steps) or "as is"),
                       "the text split into fields is %s: the line is cut or altered before its fields are taken, so a byte inside a file name can end the line" % term_str(x)[:160],
                       lbody.span_of(bb))
+        # D5-LINE-TESTS: a line as a whole is classified only by how it BEGINS (a comment starts with '#', the RCS Id line with "$NetBSD") or
+        #                by being empty; any other predicate over the whole line (contains, ends_with, a search) would let bytes inside a file name
+        #                decide what kind of line it is
+        def whole_line(x):
+            x = strip_refs(x)
+            for _ in range(8):
+                if is_index_call(x) and agg_variant(call_args(x)[1]) and agg_variant(call_args(x)[1])[1] == "RangeFrom":
+                    x = strip_refs(call_args(x)[0])
+                elif is_call(x, "::trim_ascii_start", "::as_ref", "Deref>::deref", "::as_slice") and call_args(x):
+                    x = strip_refs(call_args(x)[0])
+                elif isinstance(x, tuple) and x and x[0] == "deref":
+                    x = strip_refs(x[1])
+                else:
+                    break
+            if x == ("param", 1):
+                return True
+            if not (isinstance(x, tuple) and len(x) > 2 and x[0] == "field" and x[2] == 0 and isinstance(x[1], tuple) and x[1][0] == "downcast" and x[1][2] == "Some"
+                    and is_call(strip_refs(x[1][1]), "slice::Split<'a, T, P> as std::iter::Iterator>::next", "slice::Split as std::iter::Iterator>::next")):
+                return False
+            # a piece of the split of the INPUT (the line), not a piece of the split of a line (a field)
+            it = call_args(strip_refs(x[1][1]))[0]
+            for _ in range(6):
+                while isinstance(it, tuple) and it and it[0] in ("ref", "refmut"):
+                    it = it[1]
+                if isinstance(it, tuple) and it and it[0] == "loc" and len(it) > 2:
+                    it = it[2]
+                elif isinstance(it, tuple) and it and it[0] == "havoc" and len(it) > 3:
+                    it = it[3]
+                elif is_call(it, "IntoIterator>::into_iter") and call_args(it):
+                    it = call_args(it)[0]
+                else:
+                    break
+            return is_call(it, "[T]>::split") and strip_refs(call_args(it)[0]) == ("param", 1)
+        tests = {}
+        for p in lps:
+            for c in p.conds():
+                t = c.term
+                while isinstance(t, tuple) and t and t[0] == "unop" and t[1] == "Not":
+                    t = t[2]
+                if is_call(t) and call_args(t) and whole_line(call_args(t)[0]) and t[1].split("::")[-1] not in ("next", "split", "iter", "len"):
+                    nm = mir.norm_path(t[1]).rsplit("::", 1)[-1]
+                    lit = const_bytes(call_args(t)[1]) if len(call_args(t)) > 1 else None
+                    tests.setdefault((nm, lit), c.bb)
+        extra = sorted((k for k in tests if not ((k[0] == "starts_with" and k[1]) or k == ("is_empty", None))), key=str)
+        ctx.check(not extra and ("starts_with", "#") in tests, "D5-LINE-TESTS", LFB, "whole-line-predicates", "a line is classified by its beginning only (%s)" % sorted(tests),
+                  "a whole line is tested with %s: only a test of how the line begins (`starts_with(b\"#\")`, `starts_with(b\"$NetBSD: \")`) or `is_empty()` may classify a line as a whole" % (extra or "no comment test at all"),
+                  lbody.span_of(tests[extra[0]]) if extra else fn_span(lbody))
     # D4-BLANKSET: what counts as a blank between fields / before the first field, tabulated over all 256 byte values
     check_blank_sets(ctx, "D4-BLANKSET", LFB, floor=2)
     paths = ctx.paths(DFB)
